@@ -18,7 +18,6 @@ tables (normalisation decided on integers).
 NOT decided here (no reals / exp / log / continuous randomness in TLA+): the exact value-mean of the
 relaxation-based estimators (RelaxEstimator / REBAR), threshold(csample(b)) = b and the density
 factorisation of LogisticBernoulli / GumbelOneHotCategorical."""
-import itertools
 import json
 import os
 import sys
